@@ -1,6 +1,7 @@
 package main
 
 import (
+	"io/ioutil"
 	"bufio"
 	"fmt"
 	"go/ast"
@@ -273,6 +274,54 @@ func genInfoModel(repo string) (genFile, error) {
 		}
 	}
 	b.WriteString("\n/-- the one statement of LoadExtElements that fills the model from a row of the file -/\ndef loadExtAssignment : String := " + leanStr(loadEntry) + "\n")
+	// who replaces / writes the shared model at run time: every caller of LoadExtElements and every other assignment to
+	// InfoModel in the non-test sources of the collector (file func), so that a second writer or a call from a goroutine
+	// that runs next to the decoders shows up here
+	var writers []string
+	for _, dir := range []string{"vflow", "ipfix", "netflow/v9", "netflow/v5", "sflow", "producer", "mirror"} {
+		ents, _ := ioutil.ReadDir(filepath.Join(repo, dir))
+		for _, e := range ents {
+			if e.IsDir() || !strings.HasSuffix(e.Name(), ".go") || strings.HasSuffix(e.Name(), "_test.go") {
+				continue
+			}
+			rel := dir + "/" + e.Name()
+			fs2, f2, err := parseFile(repo, rel)
+			if err != nil {
+				writers = append(writers, "!unrecognised: "+rel+": "+err.Error())
+				continue
+			}
+			for _, d := range f2.Decls {
+				fd, ok := d.(*ast.FuncDecl)
+				if !ok || fd.Body == nil {
+					continue
+				}
+				ast.Inspect(fd.Body, func(x ast.Node) bool {
+					switch n := x.(type) {
+					case *ast.CallExpr:
+						if t := src(fs2, n.Fun); t == "ipfix.LoadExtElements" || (dir == "ipfix" && t == "LoadExtElements") {
+							writers = append(writers, rel+" "+fd.Name.Name+": call "+t)
+						}
+					case *ast.AssignStmt:
+						for _, l := range n.Lhs {
+							t := src(fs2, l)
+							if t == "InfoModel" || t == "ipfix.InfoModel" || strings.HasPrefix(t, "InfoModel[") || strings.HasPrefix(t, "ipfix.InfoModel[") {
+								writers = append(writers, rel+" "+fd.Name.Name+": assign "+t)
+							}
+						}
+					}
+					return true
+				})
+			}
+		}
+	}
+	b.WriteString("\n/-- every run-time writer of the shared information model: callers of LoadExtElements and assignments to InfoModel (file func: what) -/\ndef modelWriters : List String := [")
+	for i, w := range writers {
+		if i > 0 {
+			b.WriteString(", ")
+		}
+		b.WriteString(leanStr(w))
+	}
+	b.WriteString("]\n")
 	b.WriteString(footer("InfoModelTbl"))
 	return genFile{"InfoModelTbl", b.String()}, nil
 }
